@@ -304,16 +304,16 @@ def run(ctx):
     # the chooser's answer is what goes onto the wire: on the abstract paths of raw_print, for either answer, the framing header written
     # is the one of that coding (never overridden afterwards)
     bad_applied = []
-    for stt, dlen, te in itertools.product((200, 404), (None, 0, 7, 100000), ("Identity", "Chunked")):
-        for pth in M.run(stt, dlen, False, te, False):
+    for stt, dlen, te, dns in itertools.product((200, 404), (None, 0, 7, 100000), ("Identity", "Chunked"), (False, True)):
+        for pth in M.run(stt, dlen, dns, te, False):
             S = M.summary(pth)
             if not S["ok"]:
                 continue
             names = [n for i, n, v in S["headers"]]
             has_te, has_cl = b"Transfer-Encoding" in names, b"Content-Length" in names
             if (te == "Chunked") != has_te or (te == "Identity") != has_cl:
-                bad_applied.append((stt, dlen, te, [n.decode() for n in names if n in (b"Transfer-Encoding", b"Content-Length")]))
-    ctx.ob("C05.1", "%s|answer-applied" % raw_print.id, "the coding the chooser answered is the one applied: `Transfer-Encoding: chunked` is written iff it answered chunked, `Content-Length` iff it answered identity",
+                bad_applied.append((stt, dlen, te, "HEAD" if dns else "GET", [n.decode() for n in names if n in (b"Transfer-Encoding", b"Content-Length")]))
+    ctx.ob("C05.1", "%s|answer-applied" % raw_print.id, "the coding the chooser answered is the one applied, whether or not the body is sent (HEAD): `Transfer-Encoding: chunked` is written iff it answered chunked, `Content-Length` iff it answered identity",
            not bad_applied, "%s:%d" % (raw_print.file, raw_print.line), None if not bad_applied else str(bad_applied[:3]))
     # what raw_print passes: its own status, the request's headers and version, its declared length and threshold
     rf = M.f
